@@ -212,8 +212,17 @@ def _num():
 @st.composite
 def pair_cases(draw):
     kind = draw(st.sampled_from(KINDS))
-    mode = draw(st.integers(0, 5))
-    if mode == 0:  # constructed equal ordinals, exact: (mu, sigma) and (mu + 3d, sigma + d) with dyadic values
+    mode = draw(st.integers(0, 6))
+    if mode == 6:  # numerically equal, differently typed (int vs float, 0 vs 0.0 vs -0.0, True vs 1)
+        m = draw(st.integers(-50, 50))
+        sg = draw(st.integers(0, 20))
+        a = [m, sg]
+        b = [draw(st.sampled_from([float(m), m])), draw(st.sampled_from([float(sg), sg]))]
+        if m == 0 and draw(st.booleans()):
+            b[0] = -0.0
+        if sg == 1 and draw(st.booleans()):
+            b[1] = True
+    elif mode == 0:  # constructed equal ordinals, exact: (mu, sigma) and (mu + 3d, sigma + d) with dyadic values
         s1 = draw(st.integers(0, 64)) / 8.0
         d = draw(st.integers(-8, 64)) / 8.0
         m1 = draw(st.integers(-400, 400)) / 8.0
